@@ -118,7 +118,8 @@ pub fn run(sc: &Value) -> Vec<String> {
     world.trace_conn = None;
     let world: Shared = Arc::new(Mutex::new(world));
     install_dialer(&world);
-    let max_headers = guo(sc, "maxHeaders").unwrap_or(100);
+    // (limits beyond what an i32 holds are named by the scenario: "hugeMax" = usize::MAX, i.e. "no limit")
+    let max_headers = if gb(sc, "hugeMax") { usize::MAX } else { guo(sc, "maxHeaders").unwrap_or(100) };
     let b = attohttpc::RequestBuilder::new(attohttpc::Method::from_bytes(gso(sc, "method").unwrap_or("GET").as_bytes()).unwrap(), "http://h.test/head")
         .proxy_settings(attohttpc::ProxySettings::builder().build())
         .follow_redirects(false)
@@ -126,7 +127,7 @@ pub fn run(sc: &Value) -> Vec<String> {
     let res = catch_unwind(AssertUnwindSafe(|| b.send()));
     uninstall_dialer();
     let evfields: Vec<Value> = fields.iter().map(|(n, v)| json!([n.to_ascii_lowercase(), rle(v)])).collect();
-    let mut ev = json!({"ev":"head","id":gs(sc,"id"),"code":code,"fields":evfields,"maxHeaders":max_headers,
+    let mut ev = json!({"ev":"head","id":gs(sc,"id"),"code":code,"fields":evfields,"maxHeaders":max_headers.min(2147483647),
         "res":"err","status":0,"obs":[],"kind":"","pulled":world.lock().unwrap().conns[0].pulled,"wireLen":wl});
     match res {
         Ok(Ok(rp)) => {
@@ -190,6 +191,21 @@ pub fn generate(seed: u64, tier: &str) -> Vec<Value> {
             }
             out.push(json!({"id":format!("hc-{}-{}", i, delta),"code":200,"fields":fields,"maxHeaders":mh,
                 "segs": if delta == 0 { json!([100, 1, 1, 8192]) } else { json!([]) }}));
+        }
+    }
+    // limits far above any real head (a caller's way of saying "no limit"): the head is reported all the same
+    for (i, mh) in [24576usize, 24577, 32768, 32769, 65536, 1_000_000, 2147483647].iter().enumerate() {
+        let fields: Vec<Value> = (0..(3 + i * 50)).map(|k| json!([format!("x-{}", k % 9), rle(format!("v{}", k).as_bytes())])).collect();
+        out.push(json!({"id":format!("hm-{}", i),"code":200,"fields":fields,"maxHeaders":mh,"segs":[]}));
+    }
+    out.push(json!({"id":"hm-max","code":200,"fields":[["x-a", rle(b"1")], ["set-cookie", rle(b"a=b")]],"hugeMax":true,"segs":[]}));
+    // fields that describe the body's coding are reported like any other (only Transfer-Encoding is hop-by-hop)
+    for (i, (n, v)) in [("content-encoding", "gzip"), ("content-encoding", "deflate"), ("Content-Encoding", "GZIP"), ("content-encoding", "gzip, identity"),
+        ("content-encoding", "br"), ("vary", "Accept-Encoding"), ("content-md5", "Q2hlY2sgSW50ZWdyaXR5IQ==")].iter().enumerate() {
+        for code in [200usize, 404, 304] {
+            out.push(json!({"id":format!("hce-{}-{}", i, code),"code":code,"method": if i % 2 == 0 { "GET" } else { "POST" },
+                "fields":[["x-before", rle(b"1")], [n.to_ascii_lowercase(), rle(v.as_bytes())], ["set-cookie", rle(b"a=b")], ["set-cookie", rle(b"c=d")]],
+                "mixcase": i == 2, "segs": if i % 2 == 0 { json!([]) } else { json!([9, 30]) }}));
         }
     }
     // long values and big header blocks (8 KiB read buffer, 16 KiB line limit, > 64 KiB blocks)
